@@ -321,3 +321,25 @@ Proof.
   split; [vm_compute; reflexivity|]. split; [vm_compute; reflexivity|]. split; [reflexivity|]. split; [reflexivity|].
   split; [eexists; vm_compute; reflexivity|]. split; vm_compute; auto.
 Qed.
+
+(* known finding F17 as a theorem about the model of World.connect_one (which is the regenerated source, C11_generated_connect_one_is_the_model):
+   initial data given for a connection whose source attribute is not persistent is ALWAYS written into the destination's
+   persistent-input memory - the slot of an event becomes a remembered slot, and by C03_memory_over_runs its content is then
+   repeated at every step of the destination, against "an event value is delivered once" *)
+From MV Require Static.F17.
+Theorem C03_initial_data_makes_an_event_slot_persistent : forall gt sg dg f es,
+  src_persistent f = false -> has_init f = true -> connect_one gt sg dg f = Accepted es -> In EInitPersist es.
+Proof. exact Static.F17.initial_data_makes_an_event_slot_persistent. Qed.
+Print Assumptions C03_initial_data_makes_an_event_slot_persistent.
+
+(* known finding F10 on the model of the tables World.connect builds: the initial data of a time-shifted (or weak) connection
+   from a persistent attribute is kept in the SOURCE's output cache under (source attribute, -shift) - not per connection.
+   Witness: two time-shifted connections from the same attribute of simulator 0, to simulators 1 and 2, declaring the initial
+   values 7 and 9: one cache cell, holding 9; both destinations pull it, so simulator 1 is given 9 where it declared 7. *)
+Theorem C03_initial_data_is_per_connection_refuted :
+  let f := mkF true true true false true 1 false true true in
+  exists t, build [None] (fun _ => 0%nat) [mkConn 0 1 2 0 f false 7; mkConn 0 2 2 0 f false 9] = BOk t /\
+            t_cinit t = [(0%nat, [(-1, [(2%nat, 9)])])] /\
+            map fst (t_pull t) = [1%nat; 2%nat].
+Proof. eexists. split; [vm_compute; reflexivity|]. split; vm_compute; reflexivity. Qed.
+Print Assumptions C03_initial_data_is_per_connection_refuted.
